@@ -10,13 +10,22 @@ REPO = os.environ.get("VERIF_REPO", "/repo")
 PY = "/venv/bin/python"
 
 
+def py_cmd():
+    """interpreter command line; under tools/impl_coverage.py subprocesses are measured too"""
+    cov = os.environ.get("VERIF_COVERAGE")
+    if cov:
+        return [PY, "-m", "coverage", "run", "-p", "--branch", "--source", os.path.join(REPO, "trees"),
+                "--data-file", os.path.join(cov, ".coverage")]
+    return [PY]
+
+
 def run_cli(argv, cwd=None, env_extra=None, timeout=120):
     env = dict(os.environ)
     env["PYTHONDONTWRITEBYTECODE"] = "1"
     env.pop("PYTHONPATH", None)
     if env_extra:
         env.update(env_extra)
-    proc = subprocess.run([PY, os.path.join(REPO, "treetools")] + argv, cwd=cwd, env=env,
+    proc = subprocess.run(py_cmd() + [os.path.join(REPO, "treetools")] + argv, cwd=cwd, env=env,
                           stdout=subprocess.PIPE, stderr=subprocess.PIPE, timeout=timeout)
     return proc.returncode, proc.stdout.decode("utf-8", "replace"), proc.stderr.decode("utf-8", "replace")
 
